@@ -68,8 +68,19 @@ pub fn worker(name: &str) {
         let t = Instant::now();
         // on a thread with a 1 MiB stack (half of a default thread stack): recursion per input element shows
         let nm = name.to_string();
+        let input2 = input.clone();
         let r = std::thread::Builder::new().stack_size(1 << 20).spawn(move || guarded(|| decode(&nm, &input))).ok().and_then(|h| h.join().ok()).flatten();
-        let us = t.elapsed().as_micros();
+        let mut us = t.elapsed().as_micros();
+        // a slow decode on a loaded machine may be a scheduling hiccup: decode again (twice at most) and keep the
+        // shortest time - a decoder whose cost is out of proportion is slow every time
+        let mut again = 0;
+        while us > 200_000 && us < 3_000_000 && again < 2 {
+            let (nm2, inp) = (name.to_string(), input2.clone());
+            let t2 = Instant::now();
+            let _ = std::thread::Builder::new().stack_size(1 << 20).spawn(move || guarded(|| decode(&nm2, &inp))).ok().and_then(|h| h.join().ok());
+            us = us.min(t2.elapsed().as_micros());
+            again += 1;
+        }
         // the larger of the largest single request and the peak of the bytes held at one time
         let big = crate::ALLOC_MAX.load(Relaxed).max(crate::ALLOC_PEAK.load(Relaxed).saturating_sub(base + (1 << 20)));
         let _ = writeln!(out, "res={} alloc={} us={}", match r { None => "panic", Some(true) => "ok", Some(false) => "err" }, big, us);
